@@ -101,14 +101,189 @@ Proof.
     destruct ca, ca'; simpl in Hc; try discriminate Hc;
     destruct cb, cb'; simpl in Hc'; try discriminate Hc'; simpl;
       try (destruct (stamp_ltb ta' tb'); simpl; congruence).
-    + congruence.
     + injection Hc as Hc. injection Hc' as Hc'. f_equal. by apply nz_merge_congr.
     + injection Hc as H1 H2. injection Hc' as H1' H2'. f_equal. f_equal; by apply nz_merge_congr.
-    + congruence.
-    + injection Hc as Hc. injection Hc' as Hc'. f_equal. by apply or_norm_merge_congr.
-    + congruence.
-  - destruct va, va', vb, vb'; simpl in *; try discriminate; try done; f_equal.
-    + injection Hv as Hv. injection Hv' as Hv'. by apply nz_merge_congr.
-    + by injection Hv.
-    + by injection Hv'.
+    + f_equal. apply or_norm_merge_congr; congruence.
+  - destruct va, va', vb, vb'; simpl in *; try discriminate; try done;
+      f_equal; apply nz_merge_congr; congruence.
+Qed.
+
+(* ---------- kind and compatibility are preserved by same-kind merges ---------- *)
+Lemma kind_merge a b :
+  kind (rv_crdt a) = kind (rv_crdt b) → kind (rv_crdt (rv_merge a b)) = kind (rv_crdt a).
+Proof.
+  destruct a as [ca ? ? ? ?], b as [cb ? ? ? ?]; simpl. unfold merge_with_ts.
+  destruct ca, cb; simpl; intros; try discriminate; done.
+Qed.
+
+Lemma lww_compat_sym a b : lww_compat a b → lww_compat b a.
+Proof. unfold lww_compat. intros H E. symmetry. by apply H. Qed.
+
+Lemma compatible_sym a b : Compatible a b → Compatible b a.
+Proof.
+  unfold Compatible. destruct (rv_crdt a), (rv_crdt b); try (intros [H|H]; [left|right]; done).
+  - apply lww_compat_sym.
+  - intros H f r1 r2 H1 H2. apply lww_compat_sym. eauto.
+Qed.
+
+Lemma lww_merge_cases x y : lww_merge x y = x ∨ lww_merge x y = y.
+Proof. unfold lww_merge. destruct (stamp_ltb _ _); auto. Qed.
+
+Lemma compat_merge_l a b c :
+  kind (rv_crdt a) = kind (rv_crdt b) → kind (rv_crdt a) = kind (rv_crdt c) →
+  Compatible a c → Compatible b c → Compatible (rv_merge a b) c.
+Proof.
+  destruct a as [ca ? ? ta ?], b as [cb ? ? tb ?], c as [cc ? ? tc ?]. unfold Compatible; simpl.
+  unfold merge_with_ts.
+  destruct ca, cb; simpl; try discriminate; intros _; destruct cc; simpl; try discriminate;
+    intros _ Ha Hb; auto.
+  - destruct (lww_merge_cases r r0) as [-> | ->]; done.
+  - intros f r1 r2 H1 H2. unfold hash_merge in H1. rewrite lookup_union_with in H1.
+    destruct (h !! f) as [x|] eqn:Hx, (h0 !! f) as [y|] eqn:Hy; simpl in H1; simplify_eq; eauto.
+    destruct (lww_merge_cases x y) as [-> | ->]; eauto.
+Qed.
+
+(* ---------- folds ---------- *)
+Definition eqv (a b : rvalue) : Prop := obs a = obs b.
+Infix "≈" := eqv (at level 70).
+Global Instance eqv_equiv : Equivalence eqv.
+Proof. unfold eqv. split; [by intros ?|by intros ? ?|intros ? ? ?; congruence]. Qed.
+Global Instance rv_merge_proper : Proper (eqv ==> eqv ==> eqv) rv_merge.
+Proof. intros a a' Ha b b' Hb. by apply rv_merge_obs_congr. Qed.
+
+Notation kd v := (kind (rv_crdt v)).
+Definition mfold1 (x : rvalue) (xs : list rvalue) : rvalue := fold_left rv_merge xs x.
+(* pairwise same kind and compatible *)
+Definition Coh (l : list rvalue) : Prop :=
+  ∀ a b, In a l → In b l → kd a = kd b ∧ Compatible a b.
+
+Lemma mfold1_snoc x xs y : mfold1 x (xs ++ [y]) = rv_merge (mfold1 x xs) y.
+Proof. unfold mfold1. by rewrite fold_left_app. Qed.
+
+Lemma kind_fold x xs : (∀ y, In y xs → kd y = kd x) → kd (mfold1 x xs) = kd x.
+Proof.
+  induction xs as [|y xs IH] using rev_ind; intros H; [done|].
+  assert (H' : ∀ z, In z xs → kd z = kd x) by (intros z Hz; apply H, in_or_app; auto).
+  assert (Hy : kd y = kd x) by (apply H, in_or_app; right; by left).
+  rewrite mfold1_snoc, kind_merge; rewrite (IH H'); congruence.
+Qed.
+
+Lemma compat_fold x xs c :
+  (∀ y, In y xs → kd y = kd x) → kd x = kd c →
+  Compatible x c → (∀ y, In y xs → Compatible y c) → Compatible (mfold1 x xs) c.
+Proof.
+  induction xs as [|y xs IH] using rev_ind; intros Hk Hkc Hx Hxs; [done|].
+  rewrite mfold1_snoc.
+  assert (Hk' : ∀ z, In z xs → kd z = kd x) by (intros z Hz; apply Hk, in_or_app; auto).
+  assert (Hy : In y (xs ++ [y])) by (apply in_or_app; right; by left).
+  apply compat_merge_l.
+  - rewrite kind_fold by done. symmetry. by apply Hk.
+  - by rewrite kind_fold.
+  - apply IH; auto. intros z Hz. apply Hxs, in_or_app. auto.
+  - by apply Hxs.
+Qed.
+
+Lemma rv_merge_idem_eqv a : rv_merge a a ≈ a.
+Proof. apply rv_merge_idem. Qed.
+
+(* the fold absorbs each of its elements *)
+Lemma fold_absorbs x xs y :
+  Coh (x :: xs) → In y (x :: xs) → rv_merge (mfold1 x xs) y ≈ mfold1 x xs.
+Proof.
+  induction xs as [|z xs IH] using rev_ind; intros Hc Hy.
+  { destruct Hy as [<-|[]]. apply rv_merge_idem_eqv. }
+  assert (Hc' : Coh (x :: xs)).
+  { intros a b Ha Hb. apply Hc; (destruct Ha as [<-|Ha]; [by left|right; apply in_or_app; auto]) ||
+                                 (destruct Hb as [<-|Hb]; [by left|right; apply in_or_app; auto]). }
+  assert (Hz : In z (x :: xs ++ [z])) by (right; apply in_or_app; right; by left).
+  assert (Hx : In x (x :: xs ++ [z])) by by left.
+  assert (HkF : kd (mfold1 x xs) = kd x).
+  { apply kind_fold. intros w Hw. symmetry. apply Hc; [done|]. right. apply in_or_app. auto. }
+  rewrite mfold1_snoc. set (F := mfold1 x xs) in *.
+  assert (Hkz : kd z = kd x) by (symmetry; by apply Hc).
+  assert (Hky : kd y = kd x) by (symmetry; by apply Hc).
+  assert (SK : ∀ u w, kd u = kd x → kd w = kd x → SameKind3 F u w) by (intros u w Hu Hw; split; congruence).
+  destruct Hy as [<-|Hy]; [|apply in_app_or in Hy as [Hy|[<-|[]]]].
+  - (* y = x, an element of the shorter list *)
+    rewrite <- (rv_merge_assoc F z x) by auto.
+    rewrite (rv_merge_comm z x) by (by apply Hc).
+    rewrite (rv_merge_assoc F x z) by auto.
+    rewrite (IH Hc' (or_introl eq_refl)). reflexivity.
+  - rewrite <- (rv_merge_assoc F z y) by auto.
+    rewrite (rv_merge_comm z y) by (apply Hc; [done|right; apply in_or_app; auto]).
+    rewrite (rv_merge_assoc F y z) by auto.
+    rewrite (IH Hc' (or_intror Hy)). reflexivity.
+  - rewrite <- (rv_merge_assoc F z z) by auto.
+    rewrite (rv_merge_idem_eqv z). reflexivity.
+Qed.
+
+Lemma Coh_sub l l' : (∀ z, In z l' → In z l) → Coh l → Coh l'.
+Proof. intros Hs Hc a b Ha Hb. apply Hc; auto. Qed.
+
+Lemma fold_absorbs_fold x xs y ys :
+  Coh ((x :: xs) ++ (y :: ys)) → (∀ z, In z (y :: ys) → In z (x :: xs)) →
+  rv_merge (mfold1 x xs) (mfold1 y ys) ≈ mfold1 x xs.
+Proof.
+  intros Hc. assert (Hcx : Coh (x :: xs)).
+  { eapply Coh_sub; [|exact Hc]. intros z Hz. apply in_or_app. auto. }
+  assert (HkF : kd (mfold1 x xs) = kd x).
+  { apply kind_fold. intros w Hw. symmetry. apply Hcx; [by left|by right]. }
+  induction ys as [|z ys IH] using rev_ind; intros Hsub.
+  { apply fold_absorbs; [done|]. apply Hsub. by left. }
+  assert (Hc' : Coh ((x :: xs) ++ y :: ys)).
+  { eapply Coh_sub; [|exact Hc]. intros w Hw. apply in_app_or in Hw as [Hw|Hw]; apply in_or_app; [auto|].
+    right. destruct Hw as [<-|Hw]; [by left|right; apply in_or_app; auto]. }
+  assert (Hsub' : ∀ w, In w (y :: ys) → In w (x :: xs)).
+  { intros w Hw. apply Hsub. destruct Hw as [<-|Hw]; [by left|right; apply in_or_app; auto]. }
+  assert (Hkall : ∀ w, In w (y :: ys ++ [z]) → kd w = kd x).
+  { intros w Hw. symmetry. apply Hc; apply in_or_app; [left; by left|by right]. }
+  assert (HkG : kd (mfold1 y ys) = kd x).
+  { rewrite kind_fold.
+    - apply Hkall. by left.
+    - intros w Hw. rewrite (Hkall w), (Hkall y); [done|by left|right; apply in_or_app; auto]. }
+  assert (Hkz : kd z = kd x) by (apply Hkall; right; apply in_or_app; right; by left).
+  rewrite mfold1_snoc.
+  rewrite (rv_merge_assoc (mfold1 x xs) (mfold1 y ys) z) by (split; congruence).
+  rewrite (IH Hc' Hsub').
+  apply fold_absorbs; [done|]. apply Hsub. right. apply in_or_app. right. by left.
+Qed.
+
+Lemma compat_folds x xs y ys :
+  Coh ((x :: xs) ++ (y :: ys)) → Compatible (mfold1 x xs) (mfold1 y ys).
+Proof.
+  intros Hc.
+  assert (Hk : ∀ a b, In a ((x :: xs) ++ y :: ys) → In b ((x :: xs) ++ y :: ys) → kd a = kd b)
+    by (intros a b Ha Hb; by apply Hc).
+  assert (Hcp : ∀ a b, In a ((x :: xs) ++ y :: ys) → In b ((x :: xs) ++ y :: ys) → Compatible a b)
+    by (intros a b Ha Hb; by apply Hc).
+  assert (Ix : ∀ w, In w (x :: xs) → In w ((x :: xs) ++ y :: ys)) by (intros; apply in_or_app; auto).
+  assert (Iy : ∀ w, In w (y :: ys) → In w ((x :: xs) ++ y :: ys)) by (intros; apply in_or_app; auto).
+  assert (HkG : kd (mfold1 y ys) = kd y).
+  { apply kind_fold. intros w Hw. apply Hk; apply Iy; [by right|by left]. }
+  (* every element of the left list is compatible with the right fold *)
+  assert (HG : ∀ w, In w (x :: xs) → Compatible w (mfold1 y ys)).
+  { intros w Hw. apply compatible_sym. apply compat_fold.
+    - intros u Hu. apply Hk; apply Iy; [by right|by left].
+    - apply Hk; [apply Iy; by left|by apply Ix].
+    - apply Hcp; [apply Iy; by left|by apply Ix].
+    - intros u Hu. apply Hcp; [apply Iy; by right|by apply Ix]. }
+  apply compat_fold.
+  - intros u Hu. apply Hk; apply Ix; [by right|by left].
+  - rewrite HkG. apply Hk; [apply Ix; by left|apply Iy; by left].
+  - apply HG. by left.
+  - intros u Hu. apply HG. by right.
+Qed.
+
+(* the fold depends, on obs, only on the set of elements *)
+Theorem fold_set_determined x xs y ys :
+  Coh ((x :: xs) ++ (y :: ys)) → (∀ z, In z (x :: xs) ↔ In z (y :: ys)) →
+  mfold1 x xs ≈ mfold1 y ys.
+Proof.
+  intros Hc Hset.
+  assert (Hc' : Coh ((y :: ys) ++ (x :: xs))).
+  { eapply Coh_sub; [|exact Hc]. intros z Hz. apply in_app_or in Hz. apply in_or_app. tauto. }
+  transitivity (rv_merge (mfold1 x xs) (mfold1 y ys)).
+  { symmetry. apply fold_absorbs_fold; [done|]. intros z. apply Hset. }
+  rewrite (rv_merge_comm (mfold1 x xs) (mfold1 y ys)) by (by apply compat_folds).
+  apply fold_absorbs_fold; [done|]. intros z. apply Hset.
 Qed.
